@@ -530,8 +530,12 @@ def run(ctx):
                 'anchored policies; the verdict class is compared with a reference that exhibits the binding; internally inconsistent mutants must never be OK. '
                 'fetched part: the context downloads the publications file itself {authentic, signed by a foreign CA, no / other anchor, wrong / no constraint, tampered after signing} and 2..4 verifications (key / publications-file / general policy) run on that one context: an unauthentic file is never an anchor, neither at first nor at later use. distinct = (policy, signature kind, anchors, extender behaviour, verdict)' % EXT_BEHAVIOURS)
     ctx.assumptions = ['openssl CLI test PKI; OpenSSL primitives trusted', 'simulated HTTP transport + reference extender/calendar', 'publications file either supplied by the caller (not PKI-verified by the rules) or downloaded through the context and PKI-verified by the library (fetched part); structure and trust rules themselves are C18']
-    env = ctx.env()
-    pool.run(ctx, dispatch, [(exe, env, ctx.work, ctx.seed * 1000 + i, n, w) for i in range(16)] + [(exe, env, ctx.work, ctx.seed * 1000 + 500 + i, max(20, n // 8), w, 'fetched') for i in range(4)], workers=16)
+    # the verifying process runs in different time zones (POSIX TZ strings, no tzdata needed): certificate validity and every other time in the
+    # formats are UTC, so no verdict may depend on the zone
+    tzs = [None, 'UTC0', 'JST-9', 'EST5', 'NST3:30', 'LINT-14', 'AAA12', None]
+    envs = [ctx.env(**({'TZ': tz} if tz else {})) for tz in tzs]
+    ctx.counters['time_zones_used'] = len(set(tzs))
+    pool.run(ctx, dispatch, [(exe, envs[i % len(envs)], ctx.work, ctx.seed * 1000 + i, n, w) for i in range(16)] + [(exe, envs[(i + 2) % len(envs)], ctx.work, ctx.seed * 1000 + 500 + i, max(20, n // 8), w, 'fetched') for i in range(4)], workers=16)
     c = ctx.counters
     if not ctx.violations and not ctx.known_printed:
         for p in ('userpub', 'pubfile', 'key', 'calendar', 'general'):
